@@ -262,6 +262,7 @@ def export_binvox(voxel, axis_order="xzy"):
     """
     translate = voxel.translation
     scale = voxel.scale * (np.array(voxel.shape) - 1)
+    translate = np.array(translate, dtype=np.float64) + np.where(scale < 0, scale, 0.0)
     (neg_scale,) = np.where(scale < 0)
     encoding = voxel.encoding.flip(neg_scale)
     scale = np.abs(scale)
